@@ -41,6 +41,9 @@ FAULTS = [
     "grid:file-missing", "config:file-missing", "warm:file-missing",
     "section:no-time", "section:no-forcing", "section:no-tracker", "section:no-release", "section:no-output",
     "subgrid:i0>=i1", "subgrid:beyond-grid", "subgrid:touches-index-0", "subgrid:too-few-numbers", "subgrid:j0>=j1",
+    "subgrid:negative-j1-below-j0", "subgrid:negative-i0-above-i1", "subgrid:j-beyond-grid", "subgrid:negative-beyond-grid",
+    "forcing:starts-half-a-step-late", "forcing:ends-half-a-step-early", "forcing:duplicated-frame-in-one-file", "forcing:out-of-order-in-one-file",
+    "time:start-equals-stop", "release:empty-file", "release:position-columns-misspelt",
 ]
 
 
@@ -52,6 +55,12 @@ def cases(tier, seed):
     out = []
     for rev, multi, cont in itertools.product([False, True], [False, True], [False, True]):
         out.append(dict(rev=rev, multi=multi, cont=cont))
+    # the same faults through the real command line (`python -m ladim`), reading the process exit status
+    bases = list(itertools.product([False, True], [False, True], [False, True]))
+    sel = bases if tier == "thorough" else [bases[seed % 8]]
+    for rev, multi, cont in sel:
+        for k in range(0, len(FAULTS) - 1, 6):
+            out.append(dict(rev=rev, multi=multi, cont=cont, subprocess=True, faults=FAULTS[1:][k : k + 6]))
     return out
 
 
@@ -81,6 +90,12 @@ def build(base, fault, d):
     elif fault == "forcing:ends-one-second-early":
         slots = slots[:-1] + [NSTEPS]
         times[NSTEPS] = t(NSTEPS) - sgn * 1
+    elif fault == "forcing:starts-half-a-step-late":
+        slots = [0] + slots[1:]
+        times[0] = t(0) + sgn * DT // 2
+    elif fault == "forcing:ends-half-a-step-early":
+        slots = slots[:-1] + [NSTEPS]
+        times[NSTEPS] = t(NSTEPS) - sgn * DT // 2
     cal = sorted(slots, key=lambda s: times[s])
     fr = lambda s: dict(t=times[s], **W.uniform(0.2 + 0.01 * s, 0.05))  # noqa: E731
     multi = base["multi"] or fault.startswith("forcing:out-of-order") or fault.startswith("forcing:duplicated")
@@ -93,6 +108,10 @@ def build(base, fault, d):
             groups = [cal[:h], cal[h - 1 :]]
     else:
         groups = [cal]
+    if fault == "forcing:duplicated-frame-in-one-file":
+        groups[-1] = groups[-1][:1] + groups[-1]
+    if fault == "forcing:out-of-order-in-one-file":
+        groups[-1] = groups[-1][::-1]
     for gi, g in enumerate(groups):
         W.write_file(d / f"f_{gi:02d}.nc", [fr(s) for s in g])
     W.write_file(d / "grid.nc", [fr(cal[0])])
@@ -111,10 +130,14 @@ def build(base, fault, d):
         cols = ["release_time", "X", "Z"]
     elif fault == "release:lon-only":
         cols = ["release_time", "lon", "Z"]
+    elif fault == "release:position-columns-misspelt":
+        cols = ["release_time", "x", "y", "Z"]
     lines = [" ".join(cols)]
     for k, s in enumerate(rows_slots):
-        vals = dict(release_time=world.iso(t(s)), X=3.3 + k, Y=3.5, Z=5.0, lon=5.03)
+        vals = dict(release_time=world.iso(t(s)), X=3.3 + k, Y=3.5, Z=5.0, lon=5.03, x=3.3, y=3.5)
         lines.append(" ".join(str(vals[c]) for c in cols))
+    if fault == "release:empty-file":
+        lines = lines[:1]
     (d / "r.rls").write_text("\n".join(lines) + "\n")
     rec = drive.plug("rec_modules.py")
     conf = dict(version=2)
@@ -162,6 +185,16 @@ def build(base, fault, d):
         conf["grid"]["subgrid"] = [0, 9, 1, 7]
     elif fault == "subgrid:too-few-numbers":
         conf["grid"]["subgrid"] = [1, 9, 1]
+    elif fault == "subgrid:negative-j1-below-j0":  # grid is 10 x 8: j1 = 8 - 4 = 4 <= j0 = 5
+        conf["grid"]["subgrid"] = [1, 9, 5, -4]
+    elif fault == "subgrid:negative-i0-above-i1":  # i0 = 10 - 2 = 8 >= i1 = 7
+        conf["grid"]["subgrid"] = [-2, 7, 1, 7]
+    elif fault == "subgrid:j-beyond-grid":
+        conf["grid"]["subgrid"] = [1, 9, 1, 8]
+    elif fault == "subgrid:negative-beyond-grid":  # j0 = 8 - 9 = -1
+        conf["grid"]["subgrid"] = [1, 9, -9, 7]
+    elif fault == "time:start-equals-stop":
+        conf["time"]["stop"] = conf["time"]["start"]
     path = d / "ladim.yaml"
     if fault != "config:file-missing":
         path.write_text(yaml.safe_dump(world.clean(conf), sort_keys=False))
@@ -191,7 +224,53 @@ def run_one(base, fault):
     return err, loop_started, nrec
 
 
+def run_subprocess(base):
+    import subprocess
+
+    from netCDF4 import Dataset
+
+    b = {k: base[k] for k in ("rev", "multi", "cont")}
+    viols, n = [], 0
+    for fault in ["none"] + list(base["faults"]):
+        if fault == "release:all-before-start" and b["cont"]:
+            continue
+        d = util.scratch("c20s")
+        path = build(b, fault, d)
+        if path.exists():
+            conf = yaml.safe_load(path.read_text())
+            if "ibm" in conf:
+                conf["ibm"] = dict(module=drive.plug("sibm.py"), touchfile=str(d / "loop_started"))
+            path.write_text(yaml.safe_dump(conf, sort_keys=False))
+        r = subprocess.run(["/venv/bin/python", "-m", "ladim", "-s", str(path)], cwd=d, capture_output=True, text=True, check=False)
+        n += 1
+        nrec = 0
+        for o in sorted(d.glob("out*.nc")):
+            try:
+                with Dataset(o) as nc:
+                    nrec += len(nc.dimensions["time"])
+            except Exception:
+                pass
+        started = (d / "loop_started").exists()
+        c = dict(b, subprocess=True, faults=[fault])
+        tag = f"[python -m ladim] base={b} fault={fault}"
+        if fault == "none":
+            if r.returncode != 0 or nrec < 2 or not started:
+                viols.append(util.viol("base-scenario-broken", f"{tag}: exit status {r.returncode}, records {nrec}, loop started {started}: {r.stderr[-300:]}", c))
+                break
+            continue
+        if r.returncode == 0:
+            viols.append(util.viol(f"not-refused:{fault}", f"{tag}: exit status 0 (records {nrec}, loop started {started})", c))
+        elif started:
+            viols.append(util.viol(f"refused-too-late:{fault}", f"{tag}: exit status {r.returncode} after the time loop had started", c))
+        elif nrec > 0:
+            viols.append(util.viol(f"records-written:{fault}", f"{tag}: {nrec} records exist although exit status {r.returncode}", c))
+        util.cleanup_scratch(keep_root=True)
+    return util.result(evals=n, nontrivial=max(n - 1, 0), viol=viols, outcomes=[["subprocess", len(viols)]], states=n, transitions=n, sample=dict(base))
+
+
 def run_case(base):
+    if base.get("subprocess"):
+        return run_subprocess(base)
     viols, n, nt = [], 0, 0
     outcomes = set()
     only = base.get("only")
